@@ -1,10 +1,12 @@
 """One check per property: check_C01(rng, budget) ... check_C19(rng, budget); see the modules."""
 import props_num as _n
 import props_rel as _r
+import props_hist as _h
 import props_step as _s
+import props_struct as _t
 
 CHECK, EVAL, BOUND = {}, {}, {}
-for _m in (_s, _r, _n):
+for _m in (_s, _r, _n, _t, _h):
     for _n in dir(_m):
         if _n.startswith("check_C"):
             CHECK[_n[6:]] = getattr(_m, _n)
